@@ -65,6 +65,7 @@ func main() {
 		extractCascade(contracts, genDir)
 		extractSubmissionCascade(contracts, genDir)
 		extractServiceRepause(contracts, genDir)
+		extractChildCount(contracts, genDir)
 		if exe := byPath["github.com/meshplus/bitxhub/internal/executor"]; exe != nil {
 			extractContractMethods(exe, contracts, genDir)
 			extractFailedEvents(exe, genDir)
